@@ -52,6 +52,11 @@ def run(ctx, replay):
                           "exp": {"rcode": "noerror", "ad": True}})
             cases.append({"zone": zone, "qk": "ent", "flags": fl, "tamper": dict(none, answer="wildrep"), "anchor": True,
                           "exp": {"rcode": "servfail", "ad": False}})
+            for qk in ("ent", "whost"):
+                cases.append({"zone": zone, "qk": qk, "flags": fl, "tamper": dict(none, answer="wildforeign"), "anchor": True,
+                              "exp": {"rcode": "servfail", "ad": False}})
+            cases.append({"zone": zone, "qk": "whost", "flags": fl, "tamper": dict(none), "anchor": True,
+                          "exp": {"rcode": "noerror", "ad": True}})
     seen = set()
     cases = [c for c in cases if not (repr(c) in seen or seen.add(repr(c)))]
     for c in cases:
